@@ -45,6 +45,54 @@ def install_audit():
         _audit["installed"] = True
 
 
+def namespace_variants():
+    """module-like names that are near misses of the namespaces the decoder trusts (prefix, suffix, infix, case, extension);
+    each is importable while the canary finder is installed, and importing it is recorded"""
+    out = set()
+    for ns in ("builtins", "exceptions", "sqlite3", "struct", "errors"):
+        out |= {ns[:-1], ns[1:], ns[1:-1], ns[:3], ns[-3:], ns[:1], ns.upper(), ns.capitalize(), ns + "x", "x" + ns, ns + "_"}
+    out |= {"sql", "lite", "q", "sqlite", "Pyro5x", "pyro5", "util", "Pyro", "ite3"}
+    import sys as _s
+    return {n for n in out if n.isidentifier() and n not in _s.modules and n not in ("builtins", "exceptions", "sqlite3", "struct", "errors")}
+
+
+CANARY_MODULES = namespace_variants()
+
+
+class CanaryFinder(object):
+    """meta path finder: makes every near-miss namespace importable as an 'application module' full of exception classes"""
+    def find_spec(self, name, path=None, target=None):
+        if name in CANARY_MODULES:
+            import importlib.machinery
+            return importlib.machinery.ModuleSpec(name, self)
+        return None
+
+    def create_module(self, spec):
+        return None
+
+    def exec_module(self, module):
+        from vf import targets
+        targets.Canary.log.append(("canary-module-executed", module.__name__))
+
+        def mk(n):
+            def init(self, *a, **k):
+                targets.Canary.log.append(("canary-class-built", module.__name__ + "." + n))
+                Exception.__init__(self, *a)
+            return type(n, (Exception,), {"__init__": init, "__module__": module.__name__})
+        for n in ("Error", "XError", "error", "OperationalError", "PyroError", "Exception", "URI"):
+            setattr(module, n, mk(n))
+
+
+def install_canary_finder():
+    if not any(isinstance(f, CanaryFinder) for f in sys.meta_path):
+        sys.meta_path.insert(0, CanaryFinder())
+
+
+def purge_canary_modules():
+    for n in CANARY_MODULES:
+        sys.modules.pop(n, None)
+
+
 def tag_list(quick):
     from Pyro5 import errors
     import sqlite3
@@ -67,6 +115,11 @@ def tag_list(quick):
              "x__y", "__", "", ".", "..", "builtins.", ".eval", "float", "int", "builtins.float", "decimal.Decimal", "uuid.UUID", "datetime.datetime",
              "socket.socket", "socket.error", "socket.timeout", "ssl.SSLError", "zlib.error", "json.JSONDecodeError", "<unknown>", "Exception ", " Exception", "exception",
              "builtins.Exception.__init__", "builtins.BaseException.with_traceback", "Pyro5.errors.PyroError.__init__", "Pyro5.errors.__builtins__"]
+    tags += ["Pyro5.util.PickleSerializer", "Pyro5.util.Serializer", "Pyro5.util.serpentSerializer", "Pyro5.util.os.systemSerializer", "Pyro5.util.SerializerBase",
+             "Pyro5.util.AppSerializer", "Pyro5.utils.SerpentSerializer", "Pyro5.serializers.SerpentSerializer"]
+    for ns in sorted(CANARY_MODULES):
+        for short in ("Error", "XError", "error", "OperationalError", "PyroError", "Exception", "URI"):
+            tags.append(ns + "." + short)
     if quick:
         keep = set(t for t in tags if not t.startswith("exceptions.") or t.split(".")[1][:1] in "eEoOiIS_")
         tags = [t for t in tags if t in keep]
@@ -164,6 +217,11 @@ MEMBERS = {
     "state-empty": lambda: {"state": []},
     "nested-args": lambda: {"args": [{"__class__": "builtins.eval", "__exception__": True, "args": [SAFE_ARG]}], "attributes": {}},
     "nested-attr": lambda: {"args": [], "attributes": {"x": {"__class__": "vf.targets.Canary", "args": [1]}}},
+    "state-proxy-nested1": lambda: {"state": ["PYRO:o@h:1", {"__class__": "Pyro5.client.Proxy", "state": ["PYRO:inner@h:1", [], [], [], "hello", None]}, ["m"], [], "hello", None]},
+    "state-proxy-nested0": lambda: {"state": [{"__class__": "Pyro5.client.Proxy", "state": ["PYRO:inner@h:1", [], [], [], "hello", None]}, [], ["m"], [], "hello", None]},
+    "args-is-proxy": lambda: {"args": {"__class__": "Pyro5.client.Proxy", "state": ["PYRO:inner@h:1", [], [], [], "hello", None]}, "attributes": {}},
+    "attrs-is-proxy": lambda: {"args": [], "attributes": {"__class__": "Pyro5.client.Proxy", "state": ["PYRO:inner@h:1", [], [], [], "hello", None]}},
+    "state-is-proxy": lambda: {"state": {"__class__": "Pyro5.client.Proxy", "state": ["PYRO:inner@h:1", [], [], [], "hello", None]}},
     "wrapper-exc": lambda: {"exception": {"__class__": "os.system", "__exception__": True, "args": [SAFE_ARG]}},
     "wrapper-plain": lambda: {"exception": 5},
 }
@@ -193,6 +251,7 @@ def task(unit):
     from vf import targets
     tags, quick = unit
     install_audit()
+    install_canary_finder()
     ok_types = allowed_types()
     enc = encoders()
     st = Stats()
@@ -237,6 +296,7 @@ def task(unit):
                                     res = ("base-exc", x)
                             finally:
                                 _audit["active"] = False
+                                purge_canary_modules()
                             st.executions += 1
                             events = [e for e in _audit["events"] if not (sname == "serpent" and e.startswith("compile"))]
                             tagkind = "dunder" if (isinstance(tag, str) and "__" in tag) else ("allowed" if allowed_tag(tag, bool(flag)) else "foreign")
